@@ -351,6 +351,23 @@ func (e *Engine) call(fr *Frame, st *State, reach Term, site ssa.Instruction, c 
 		id = e.P.FuncIDOf(callee)
 	}
 	label := e.callLabel(id, callee, c)
+	if e.lockChecks && pre == nil && e.unwinding == 0 && !strings.HasPrefix(id, "sync.") && len(st.acquired) > 0 {
+		// a lock taken by this function and still held across a call must be released by a deferred Unlock:
+		// a panic in the callee (recovered further up: refresh goroutines, the HTTP server) would otherwise leak it
+		var aks []string
+		for k := range st.acquired {
+			aks = append(aks, k)
+		}
+		sort.Strings(aks)
+		for _, k := range aks {
+			m := st.acquired[k]
+			if e.hasDeferredUnlock(st, m) {
+				continue
+			}
+			cur := Select(e.heldArr(st), m, SInt)
+			e.oblige("lock.release", "lock.defer@"+label, "a lock taken by this function is held across the call to "+id+" without a deferred Unlock (a panic in the callee leaks the lock)", reach, Eq(cur, IntLit(0)), nil)
+		}
+	}
 	if c.IsInvoke() {
 		e.ownedCallCheck(st, reach, args[0], c.Method.Name())
 	} else if callee != nil && callee.Signature.Recv() != nil && len(args) > 0 {
@@ -416,7 +433,7 @@ func (e *Engine) call(fr *Frame, st *State, reach Term, site ssa.Instruction, c 
 	e.exposing = false
 	st.havocPrefix([]string{""}, true)
 	res := e.havocVal(reach, "res."+label, resType)
-	e.labels[label] = &callLabel{Reach: reach, Args: args, Results: splitResults(res)}
+	e.labels[label] = &callLabel{Callee: id, Reach: reach, Args: args, Results: splitResults(res)}
 	return res, reach
 }
 
@@ -620,6 +637,14 @@ func (e *Engine) applyContract(fr *Frame, st *State, reach Term, fc *FuncContrac
 	}
 	e.exposing = false
 	eff := e.P.expandAssigns(fc)
+	// writes to lock-guarded fields that the callee's contract allows count as writes of the caller
+	{
+		for _, c := range eff.comps {
+			if e.P.isGuardedComp(c) {
+				e.noteGuardedWrite(c, "through "+fc.ID)
+			}
+		}
+	}
 	type objHavoc struct {
 		ref  Term
 		t    types.Type
@@ -837,7 +862,7 @@ func (e *Engine) applyContract(fr *Frame, st *State, reach Term, fc *FuncContrac
 		}
 		e.assume(reach, c)
 	}
-	e.labels[label] = &callLabel{Reach: reach, Args: args, Results: results}
+	e.labels[label] = &callLabel{Callee: id, Reach: reach, Args: args, Results: results}
 	return res
 }
 
@@ -918,7 +943,7 @@ func (e *Engine) inline(st *State, reach Term, callee *ssa.Function, clo *Closur
 	}
 	nreach := Or(conds...)
 	nreach = e.define("ret", nreach)
-	e.labels[label] = &callLabel{Reach: reach, Args: args, Results: splitResults(res)}
+	e.labels[label] = &callLabel{Callee: "inlined:" + e.P.FuncIDOf(callee), Reach: reach, Args: args, Results: splitResults(res)}
 	return res, nreach
 }
 
@@ -944,7 +969,9 @@ func (e *Engine) runDefers(fr *Frame, st *State, reach Term) Term {
 		// fork: with the deferred call / without
 		with := st.clone()
 		with.defers = nil
+		e.unwinding++
 		_, r2 := e.call(fr, with, g, d.instr, d.instr.Common(), d)
+		e.unwinding--
 		_ = r2
 		without := st
 		m := e.mergeStates([]Term{d.guard, Not(d.guard)}, []*State{with, without})
@@ -1237,6 +1264,26 @@ const lockComp = "L.held"
 func (e *Engine) heldArr(st *State) Term { return st.comp(lockComp, ArraySort(SInt, SInt)) }
 
 // lockPrimitive models sync.Mutex / sync.RWMutex operations on the ghost lockset.
+// hasDeferredUnlock: a deferred Unlock/RUnlock of mutex m is registered in the current state.
+func (e *Engine) hasDeferredUnlock(st *State, m Term) bool {
+	for _, d := range st.defers {
+		if d.instr == nil {
+			continue
+		}
+		id, _ := e.P.calleeID(d.instr.Common())
+		if id != "sync.Mutex.Unlock" && id != "sync.RWMutex.Unlock" && id != "sync.RWMutex.RUnlock" {
+			continue
+		}
+		if len(d.args) == 0 {
+			continue
+		}
+		if dm := e.reify(st, True, d.args[0]); dm.S == m.S {
+			return true
+		}
+	}
+	return false
+}
+
 func (e *Engine) lockPrimitive(st *State, reach Term, id string, args []Val, label string) (Val, bool) {
 	var op string
 	switch id {
@@ -1255,6 +1302,12 @@ func (e *Engine) lockPrimitive(st *State, reach Term, id string, args []Val, lab
 	m := e.reify(st, reach, args[0])
 	held := e.heldArr(st)
 	cur := Select(held, m, SInt)
+	if op == "Lock" || op == "RLock" {
+		if st.acquired == nil {
+			st.acquired = map[string]Term{}
+		}
+		st.acquired[m.S] = m
+	}
 	switch op {
 	case "Lock":
 		e.oblige("lock.reentry", "lock.reentry@"+label, "Lock() on a mutex this goroutine already holds (self-deadlock)", reach, Eq(cur, IntLit(0)), nil).Props = nil
